@@ -63,7 +63,7 @@ def run(tier):
     # (c) redeemer index lookups read sorted vectors
     pos_calls = flow.calls_matching(f, r"Iterator::position$")
     sort_calls = flow.calls_matching(f, SORT_IDIOMS)
-    res.floor("redeemer index lookups (position)", len(pos_calls), 2)
+    res.floor("redeemer index lookups (position)", len(pos_calls), 1)   # 2 today
     for bi, t in pos_calls:
         vec = flow.arg_chain(f, t, 0)
         name = f.local_name(vec[0][1]) if vec and vec[0][0] == "local" else None
